@@ -10,6 +10,7 @@ import Vibrato.Driver.Image
 import Vibrato.Driver.LexCsv
 import Vibrato.Driver.Conn
 import Vibrato.Driver.Extractor
+import Vibrato.Driver.MecabSpec
 import Vibrato.Driver.Trainer
 
 open Vibrato Vibrato.Driver
@@ -80,7 +81,16 @@ def stepLine (fx : Fixes) (st : DState) (line : String) : DState × String :=
           if Conn.spec a b d == Conn.spec a' b' d' then "1" else "0"
         | _, _, _, _, _, _ => "n/a"
       | _, _, _ => "n/a"
-    (st, s!"extract {id} MODEL {model} P MECABCOST={p}")
+    -- C20 itself: costs of the dictionary compiled from the IMPLEMENTATION's files = template sums of the inputs
+    let spec := match inp, implToks with
+      | "MECAB" :: f :: r :: l :: m :: cf :: _, ["ok", a, b, c] =>
+        match Wire.bytesOfHex f, Wire.bytesOfHex r, Wire.bytesOfHex l, Wire.bytesOfHex m, cf.toNat?,
+              Wire.bytesOfHex a, Wire.bytesOfHex b, Wire.bytesOfHex c with
+        | some f, some r, some l, some m, some cf, some a, some b, some c =>
+          MecabSpec.specVerdict fx.f14 f r l m (Float.ofBits cf.toUInt64) a b c
+        | _, _, _, _, _, _, _, _ => "n/a NOBIGRAM=na"
+      | _, _ => "n/a NOBIGRAM=na"
+    (st, s!"extract {id} MODEL {model} P MECABCOST={p} MECABSPEC={spec}")
   | "cli" :: id :: _ =>
     -- the command-line programs are wrappers: their observable results are those of the library calls
     -- they are documented to make (which the other streams tie to the model)
